@@ -10,12 +10,12 @@ LEVEL = 'exploration'
 RULE = ('routing tables of 0-5 anchored regex entries (overlapping prefixes, catch-alls; delete / deliver / forward) and node ids in dtn: '
         'and ipn: form; receive histories of 2-24 bundles with repeats, look-alikes differing in exactly one identity component (source, '
         'time, sequence number, fragment offset, total length), fragments on non-deliver routes, bundles sourced by the node itself and '
-        'bundles to its administrative endpoint; the order of arrival is permuted and duplicated by the link (chooser). A seen-set + '
+        'bundles to its administrative endpoint, and copies damaged in transit (one payload bit, CRC mismatch) that must cause nothing and must not turn a later intact copy into a repeat; the order of arrival is permuted and duplicated by the link (chooser). A seen-set + '
         'first-match reference model predicts for every reception the exact set of probe deliveries and forwards. Non-trivial: the '
         'history contains a repeat or a look-alike; distinct = digest of (table, history).')
 COMPONENTS = bc.COMPONENTS
 PROBES = ('hist.repeat', 'hist.lookalike', 'hist.own_source', 'hist.admin_endpoint', 'hist.fragment', 'hist.no_route', 'act.deliver', 'act.forward', 'act.delete',
-          'route.shadowed_entry', 'hist.burst')
+          'route.shadowed_entry', 'hist.burst', 'hist.damaged_copy', 'hist.intact_after_damaged')
 ASSUMPTIONS = ['destinations avoid the endpoints the bundled applications claim (ipn:100.1, configured SAND/SAFE endpoints)',
                'payloads begin with an octet that is not a decodable SAFE PDU', 'no report flags (C19 covers reports)']
 CHUNK = 25
@@ -44,7 +44,7 @@ def gen(ch, tier):
                          dest=ch.choice('dest', dests), frag=None, tag=ix + 1, plen=1 + ch.pick('plen', 30)))
     hist = []
     for _ in range(2 + ch.pick('nhist', 23)):
-        kind = ch.weighted('hkind', (4, 4, 2, 1, 1))
+        kind = ch.weighted('hkind', (4, 4, 2, 1, 1, 1))
         item = dict(ch.choice('pick', base))
         if kind == 1:
             # look-alike: change exactly one identity component
@@ -66,6 +66,10 @@ def gen(ch, tier):
             item['source'] = node_id
         elif kind == 4:
             item['dest'] = node_id
+        elif kind == 5:
+            # this copy is damaged in transit (one payload bit; the block CRC no longer matches): it is not a reception of the
+            # bundle at all, so it causes nothing and must not make a later intact copy count as a repeat
+            item['damaged'] = 1 + ch.pick('dbit', 64)
         hist.append(item)
     return dict(scenario='bp_route', node_id=node_id, table=table, hist=hist, burst=ch.choice('burst', (1, 1, 2, 3, 5)))
 
@@ -79,7 +83,14 @@ def encode(item):
         pri['flags'] |= rfc9171.FLAG_IS_FRAGMENT
         pri['frag_offset'] = item['frag'][0]
         pri['total_adu_len'] = item['frag'][1]
-    return rfc9171.encode_bundle(pri, [dict(type=1, num=1, crc_type=1, btsd=data)])
+    out = rfc9171.encode_bundle(pri, [dict(type=1, num=1, crc_type=1, btsd=data)])
+    if item.get('damaged'):
+        (lo, hi) = rfc9171.decode_bundle(out)['blocks'][-1]['btsd_range']
+        pos = lo * 8 + item['damaged'] % ((hi - lo) * 8)
+        arr = bytearray(out)
+        arr[pos // 8] ^= 0x80 >> (pos % 8)
+        out = bytes(arr)
+    return out
 
 
 def ident_of(item):
@@ -93,6 +104,8 @@ def ident_of(item):
 def model_action(plan, item, seen):
     ''' Reference model: returns None (nothing) or the action name. '''
     import re
+    if item.get('damaged'):
+        return None
     if item['source'] == plan['node_id']:
         return None
     key = ident_of(item)
@@ -156,6 +169,12 @@ def _drive(run, plan, har):
                 stats['act.' + want] = stats.get('act.' + want, 0) + 1
             exp_del = 1 if want == 'deliver' else 0
             kind = 'repeat' if want is None and item['source'] != plan['node_id'] else ('own-source' if want is None else want)
+            if item.get('damaged'):
+                kind = 'damaged'
+                stats['hist.damaged_copy'] = 1
+            elif want is not None and any(prev.get('damaged') and ident_of(prev) == ident_of(item) for (_pix, prev) in hist[:ix]):
+                kind = want + '-after-damaged-copy'
+                stats['hist.intact_after_damaged'] = 1
             if len(dels) != exp_del:
                 run.viols.append(('deliver', '%s-delivered-%d' % (kind, len(dels)), '%d deliveries, expected %d at %s; recv error %s' % (len(dels), exp_del, where, rec['error'])))
                 return
@@ -211,7 +230,7 @@ def describe(run):
             counters['hist.own_source'] = 1
         if item['dest'] == plan['node_id']:
             counters['hist.admin_endpoint'] = 1
-        if item['frag']:
+        if item['frag'] and not item.get('damaged'):
             counters['hist.fragment'] = 1
     if run.stats.get('act.noroute'):
         counters['hist.no_route'] = 1
